@@ -1421,7 +1421,7 @@ Section C03Inv.
     unfold inv03. cbn [fst snd with_query c_query c_resp c_resp_opt]. rewrite Q3, Q4, C3q, C3o.
     split5; try assumption; try reflexivity.
     intros r H. subst c3. destruct (c_resp c2) as [r2|] eqn:Er; [|rewrite Er in H; discriminate].
-    cbn in H. inversion H; subst r. destruct (K3 r2 eq_refl) as (R1 & R2 & n & R3 & R4).
+    cbn in H. inversion H; subst r. destruct (K3 r2 Er) as (R1 & R2 & n & R3 & R4).
     split; [exact R1|]. split; [exact R2|]. cbn.
     rewrite R3. cbn. unfold rename_question. cbn [qname qtype qclass].
     destruct (name_eqb n tgt) eqn:En.
